@@ -8,8 +8,10 @@ import (
 	"sort"
 	"strconv"
 	"strings"
+	"time"
 
 	"github.com/ipfs/boxo/blockstore"
+	"github.com/ipfs/boxo/datastore/dshelp"
 	blocks "github.com/ipfs/go-block-format"
 	"github.com/ipfs/go-cid"
 	ds "github.com/ipfs/go-datastore"
@@ -81,7 +83,12 @@ func gen(r *vh.Rand, tier string, n int, emit func(vh.Case)) {
 		rr := r.Fork()
 		c := vh.Case{ID: strconv.Itoa(i)}
 		wt, np, id := rr.Bool(), rr.Bool(), rr.Bool()
-		c.Ops = append(c.Ops, fmt.Sprintf("cfg %d %d %d", b2i(wt), b2i(np), b2i(id)))
+		prov := rr.Chance(1, 3)
+		c.Ops = append(c.Ops, fmt.Sprintf("cfg %d %d %d %d", b2i(wt), b2i(np), b2i(id), b2i(prov)))
+		foreignKeys := rr.Chance(1, 10) // keys the blockstore did not write, planted in the datastore
+		rawKeys := []string{"/blocks/mzxw6", "/blocks/MZXW6", "/blocks/AB", "/blocks/A", "/blocks/MZX", "/blocks/MZXW6Y",
+			"/blocks/A1", "/blocks/MZXW6===", "/other/MZXW6", "/MZXW6", "/mzxw6ytboi", "/blocks/MZXW6/X", "/blocks",
+			"/blocks/CIQ0", "/BLOCKS/MZXW6", "/blocks/mZxW6yTb"}
 		pool, ident := mkPool(rr)
 		dishonest := wt && rr.Chance(1, 3) || !wt && rr.Chance(1, 12)
 		weird := rr.Chance(1, 15) // blocks carrying the undefined CID
@@ -146,8 +153,16 @@ func gen(r *vh.Rand, tier string, n int, emit func(vh.Case)) {
 				c.Ops = append(c.Ops, "size "+anyCid())
 			case k < 86:
 				c.Ops = append(c.Ops, "view "+anyCid())
-			case k < 93:
+			case k < 90:
 				c.Ops = append(c.Ops, "keys")
+			case k < 92:
+				c.Ops = append(c.Ops, "keyserr")
+			case k < 93:
+				c.Ops = append(c.Ops, fmt.Sprintf("keyscancel %d", rr.Intn(4)))
+			case k < 94:
+				c.Ops = append(c.Ops, "gc")
+			case k < 96 && foreignKeys:
+				c.Ops = append(c.Ops, "rawput "+vh.Pick(rr, rawKeys)+" "+vh.Hex(rr.Bytes(rr.Intn(4))))
 			default:
 				c.Ops = append(c.Ops, "dump")
 			}
@@ -194,6 +209,30 @@ func identityDigest(c cid.Cid) ([]byte, bool) {
 	return d.Digest, true
 }
 
+// recording provider: one entry per StartProviding call
+type recProvider struct{ calls [][]string }
+
+func (p *recProvider) StartProviding(force bool, keys ...mh.Multihash) error {
+	hs := make([]string, len(keys))
+	for i, k := range keys {
+		hs[i] = vh.Hex(k)
+	}
+	p.calls = append(p.calls, hs)
+	if force {
+		p.calls = append(p.calls, []string{"FORCE"})
+	}
+	return nil
+}
+
+func (p *recProvider) take() string {
+	cs := make([]string, len(p.calls))
+	for i, c := range p.calls {
+		cs[i] = strings.Join(c, ",")
+	}
+	p.calls = nil
+	return " prov=" + strings.Join(cs, "|")
+}
+
 type monitor struct {
 	on bool
 	id bool
@@ -212,6 +251,14 @@ func exec(c vh.Case, o *vh.Out) {
 	var mds *ds.MapDatastore
 	var bs blockstore.Blockstore
 	var wt, np, idw bool
+	var prov *recProvider
+	provOut := func() string {
+		if prov == nil {
+			return ""
+		}
+		return prov.take()
+	}
+	hasForeign := strings.Contains(strings.Join(c.Ops, "\n"), "rawput ")
 	mo := &monitor{}
 	puts, dels, hits, aliasHits := 0, 0, 0, 0
 	lastPutCid := map[string]string{}
@@ -241,12 +288,22 @@ func exec(c vh.Case, o *vh.Out) {
 		switch f[0] {
 		case "cfg":
 			wt, np, idw = f[1] == "1", f[2] == "1", f[3] == "1"
+			prov = nil
 			mds = ds.NewMapDatastore()
 			opts := []blockstore.Option{blockstore.WriteThrough(wt)}
 			if np {
 				opts = append(opts, blockstore.NoPrefix())
 			}
-			bs = blockstore.NewBlockstore(mds, opts...)
+			if len(f) > 4 && f[4] == "1" {
+				prov = &recProvider{}
+				opts = append(opts, blockstore.Provider(prov))
+				o.Kind("provider")
+			}
+			if np && !wt && prov == nil {
+				bs = blockstore.NewBlockstoreNoPrefix(mds) // the deprecated constructor: same configuration
+			} else {
+				bs = blockstore.NewBlockstore(mds, opts...)
+			}
 			if idw {
 				bs = blockstore.NewIdStore(bs)
 			}
@@ -267,7 +324,13 @@ func exec(c vh.Case, o *vh.Out) {
 			puts++
 			lastPutCid[string(b.Cid().Hash())] = f[1]
 			o.Kind("put")
-			emitErr(o, err)
+			// monitor: the datastore key helpers invert each other on every multihash put
+			if k := b.Cid(); k.Defined() {
+				if c1, err := dshelp.DsKeyToCidV1(dshelp.MultihashToDsKey(k.Hash()), cid.Raw); err != nil || !bytesEq(c1.Hash(), k.Hash()) {
+					o.Fail("dskey-roundtrip", "DsKeyToCidV1(MultihashToDsKey(%x)) = %v, %v", k.Hash(), c1, err)
+				}
+			}
+			emitErrP(o, err, provOut())
 		case "putmany":
 			var bl []blocks.Block
 			for i := 1; i+1 < len(f); i += 2 {
@@ -278,7 +341,26 @@ func exec(c vh.Case, o *vh.Out) {
 			}
 			puts++
 			o.Kind(fmt.Sprintf("putmany-%d", min(len(bl), 3)))
-			emitErr(o, bs.PutMany(ctx, bl))
+			err := bs.PutMany(ctx, bl)
+			// monitor: nothing announced is an identity multihash behind the identity wrapper, and every
+			// announced multihash belongs to a block of this call
+			if prov != nil {
+				for _, call := range prov.calls {
+					for _, h := range call {
+						found := false
+						for _, b := range bl {
+							if vh.Hex(b.Cid().Hash()) == h {
+								_, isID := identityDigest(b.Cid())
+								found = !(idw && isID)
+							}
+						}
+						if !found {
+							o.Fail("provided-foreign-multihash", "PutMany announced %s", h)
+						}
+					}
+				}
+			}
+			emitErrP(o, err, provOut())
 		case "del":
 			k := parseCid(f[1])
 			err := bs.DeleteBlock(ctx, k)
@@ -381,8 +463,32 @@ func exec(c vh.Case, o *vh.Out) {
 			default:
 				o.Emit("error")
 			}
-		case "keys":
-			ch, err := bs.AllKeysChan(ctx)
+		case "rawput":
+			o.Kind("rawput")
+			emitErr(o, mds.Put(ctx, ds.RawKey(f[1]), vh.UnHex(f[2])))
+		case "gc":
+			o.Kind("gc")
+			gcExercise(ctx, bs, o)
+			o.Emit("ok")
+		case "keyscancel":
+			o.Kind("keyscancel")
+			keysCancel(ctx, bs, vh.Atoi(f[1]), mo, hasForeign, o)
+			o.Emit("ok")
+		case "keys", "keyserr":
+			var ch <-chan cid.Cid
+			var err error
+			errFn := func() error { return nil }
+			if f[0] == "keyserr" {
+				we, ok := bs.(blockstore.AllKeysChanWithErrer)
+				if !ok {
+					o.Fail("no-allkeys-with-err", "%T does not implement AllKeysChanWithErrer", bs)
+					o.Emit("error")
+					continue
+				}
+				ch, errFn, err = we.AllKeysChanWithErr(ctx)
+			} else {
+				ch, err = bs.AllKeysChan(ctx)
+			}
 			if err != nil {
 				o.Emit("error")
 				continue
@@ -395,8 +501,11 @@ func exec(c vh.Case, o *vh.Out) {
 				}
 			}
 			sort.Strings(ks)
-			o.Kind("keys")
-			if mo.on {
+			o.Kind(f[0])
+			if e := errFn(); e != nil {
+				o.Fail("allkeys-error-after-full-drain", "AllKeysChanWithErr error function: %v", e)
+			}
+			if mo.on && !hasForeign {
 				var want []string
 				for k := range mo.m {
 					want = append(want, vh.Hex([]byte(k)))
@@ -430,6 +539,11 @@ func exec(c vh.Case, o *vh.Out) {
 			o.Emit("bad-op")
 		}
 	}
+	if cl, ok := bs.(interface{ Close() error }); ok {
+		if err := cl.Close(); err != nil {
+			o.Fail("close-error", "%v", err)
+		}
+	}
 	if puts > 0 && dels > 0 && hits > 0 {
 		o.Nontrivial()
 	}
@@ -437,6 +551,100 @@ func exec(c vh.Case, o *vh.Out) {
 }
 
 func bytesEq(a, b []byte) bool { return string(a) == string(b) }
+
+func emitErrP(o *vh.Out, err error, prov string) {
+	if err != nil {
+		o.Emit("error%s", prov)
+	} else {
+		o.Emit("ok%s", prov)
+	}
+}
+
+// keysCancel reads n keys from AllKeysChanWithErr, cancels, drains, and judges what is timing
+// independent: delivered keys are distinct and present; no error reported ⇒ the delivery was complete.
+func keysCancel(ctx context.Context, bs blockstore.Blockstore, n int, mo *monitor, foreign bool, o *vh.Out) {
+	we, ok := bs.(blockstore.AllKeysChanWithErrer)
+	if !ok {
+		return
+	}
+	cctx, cancel := context.WithCancel(ctx)
+	defer cancel()
+	ch, errFn, err := we.AllKeysChanWithErr(cctx)
+	if err != nil {
+		o.Fail("allkeys-setup-error", "%v", err)
+		return
+	}
+	seen := map[string]bool{}
+	got := 0
+	for k := range ch {
+		h := string(k.Hash())
+		if seen[h] {
+			o.Fail("allkeys-duplicate", "key %x delivered twice", h)
+		}
+		seen[h] = true
+		got++
+		if got == n {
+			cancel()
+		}
+	}
+	if n == 0 {
+		cancel()
+	}
+	e := errFn()
+	if !mo.on || foreign {
+		return
+	}
+	for h := range seen {
+		if _, present := mo.m[h]; !present {
+			o.Fail("allkeys-phantom", "cancelled enumeration delivered absent key %x", h)
+		}
+	}
+	if e == nil && len(seen) != len(mo.m) {
+		o.Fail("allkeys-truncated-without-error", "delivered %d of %d keys, error function returned nil", len(seen), len(mo.m))
+	}
+	if e != nil {
+		o.Kind("keyscancel-cut")
+	}
+}
+
+// gcExercise drives the GCLocker through NewGCBlockstore: sequential lock/unlock pairs, and one
+// deterministic two-goroutine hand-over (a GC request waits for a pinner and is visible meanwhile).
+func gcExercise(ctx context.Context, bs blockstore.Blockstore, o *vh.Out) {
+	g := blockstore.NewGCBlockstore(bs, blockstore.NewGCLocker())
+	if g.GCRequested(ctx) {
+		o.Fail("gclocker-requested-when-idle", "GCRequested true on a fresh locker")
+	}
+	g.GCLock(ctx).Unlock(ctx)
+	p1, p2 := g.PinLock(ctx), g.PinLock(ctx) // pin locks are shared
+	p2.Unlock(ctx)
+	acquired := make(chan struct{})
+	go func() {
+		u := g.GCLock(ctx)
+		close(acquired)
+		u.Unlock(ctx)
+	}()
+	deadline := time.Now().Add(5 * time.Second)
+	for !g.GCRequested(ctx) && time.Now().Before(deadline) {
+		time.Sleep(50 * time.Microsecond)
+	}
+	if !g.GCRequested(ctx) {
+		o.Fail("gclocker-request-invisible", "GCRequested stayed false while GCLock waits for a pinner")
+	}
+	select {
+	case <-acquired:
+		o.Fail("gclocker-gc-during-pin", "GCLock acquired while a PinLock is held")
+	default:
+	}
+	p1.Unlock(ctx)
+	select {
+	case <-acquired:
+	case <-time.After(5 * time.Second):
+		o.Fail("gclocker-gc-starved", "GCLock not acquired after the pinner left")
+	}
+	if has, err := g.Has(ctx, cid.NewCidV1(cid.Raw, []byte{0x12, 0x01, 0x00})); err != nil || has && false {
+		o.Fail("gcblockstore-has", "%v", err)
+	}
+}
 
 func emitErr(o *vh.Out, err error) {
 	if err != nil {
